@@ -8,11 +8,14 @@ import (
 	"path/filepath"
 	"strconv"
 	"strings"
+	"sync"
+	"time"
 
 	"github.com/Trendyol/go-dcp/config"
 	"github.com/Trendyol/go-dcp/couchbase"
 	"github.com/Trendyol/go-dcp/metadata"
 	"github.com/Trendyol/go-dcp/models"
+	"github.com/Trendyol/go-dcp/tracing"
 	"github.com/couchbase/gocbcore/v10"
 
 	"verifharness/simnode"
@@ -51,6 +54,7 @@ func newWireRig() (*wireRig, error) {
 	cfg := &config.Dcp{Hosts: []string{fmt.Sprintf("http://127.0.0.1:%d", node.HTTPPort())}, Username: "user", Password: "password", BucketName: "b1"}
 	cfg.Dcp.Group.Name = "grp"
 	cfg.ApplyDefaults()
+	cfg.RollbackMitigation.Disabled = true
 	cl := couchbase.NewClient(cfg)
 	if err := cl.Connect(); err != nil {
 		return nil, err
@@ -62,7 +66,19 @@ func newWireRig() (*wireRig, error) {
 }
 
 func (r *wireRig) observer(vb uint16) couchbase.Observer {
-	return couchbase.NewObserver(r.cfg, vb, 0, func(models.ListenerArgs) {}, func(models.DcpStreamEndContext) {}, map[uint32]string{}, nil)
+	return r.observerTo(vb, nil)
+}
+
+// observerTo: a real observer whose listener records the seqnos of the mutations it is handed
+func (r *wireRig) observerTo(vb uint16, got *[]int) couchbase.Observer {
+	var mu sync.Mutex
+	return couchbase.NewObserver(r.cfg, vb, 0, func(a models.ListenerArgs) {
+		if m, ok := a.Event.(models.InternalDcpMutation); ok && got != nil {
+			mu.Lock()
+			*got = append(*got, int(m.SeqNo))
+			mu.Unlock()
+		}
+	}, func(models.DcpStreamEndContext) {}, map[uint32]string{}, tracing.NewTracerComponent())
 }
 
 func (r *wireRig) sreq(in map[string]any) map[string]any {
@@ -77,11 +93,26 @@ func (r *wireRig) sreq(in map[string]any) map[string]any {
 	}
 	const vb = 1
 	r.wire.Script(vb, fo, int64(toInt(in["rb"])))
+	// right behind the answer that accepts the stream the node sends one snapshot with the events from the resume point up
+	// to one past the position the client had reached: after a rollback everything at or below that position must be
+	// filtered (the catch-up mark is armed before the first of them is dispatched), the one beyond it delivered
+	f, start := toInt(in["seq"]), toInt(in["seq"])
+	if rb := toInt(in["rb"]); rb >= 0 {
+		start = rb
+	}
+	burst := []uint64{uint64(start), uint64(f + 1)}
+	for q := start + 1; q <= f+1; q++ {
+		burst = append(burst, uint64(q))
+	}
+	var got []int
 	off := &models.Offset{SnapshotMarker: &models.SnapshotMarker{StartSeqNo: uint64(toInt(in["ss"])), EndSeqNo: uint64(toInt(in["se"]))},
 		VbUUID: gocbVbUUID(uint64(toInt(in["uuid"]))), SeqNo: uint64(toInt(in["seq"])), LatestSeqNo: endOf(toInt(in["latest"]))}
-	ob := r.observer(vb)
+	ob := r.observerTo(vb, &got)
 	var err error
-	msg := guarded(func() { err = r.cl.OpenStream(vb, map[uint32]string{}, off, ob) })
+	msg := guarded(func() {
+		r.wire.SetBurst(burst)
+		err = r.cl.OpenStream(vb, map[uint32]string{}, off, ob)
+	})
 	if msg == "" && err != nil {
 		msg = err.Error()
 	}
@@ -98,6 +129,19 @@ func (r *wireRig) sreq(in map[string]any) map[string]any {
 	if armed {
 		res["catchup"] = int(cu)
 	}
+	// the events of the burst travel on the DCP connection right behind the answer: give the dispatcher a moment
+	deadline := time.Now().Add(300 * time.Millisecond)
+	for time.Now().Before(deadline) {
+		if l := len(got); l > 0 && got[l-1] == f+1 {
+			break
+		}
+		time.Sleep(time.Millisecond)
+	}
+	delivered := []any{}
+	for _, q := range got {
+		delivered = append(delivered, q)
+	}
+	res["delivered"] = delivered
 	_ = r.cl.CloseStream(vb)
 	return res
 }
@@ -130,23 +174,38 @@ func (r *wireRig) fid(in map[string]any, dir string) map[string]any {
 			res["req"] = l
 		}
 		_ = r.cl.CloseStream(svb)
-		// the metadata backends
-		doc := &models.CheckpointDocument{BucketUUID: "bkt", Checkpoint: &models.CheckpointDocumentCheckpoint{VbUUID: u(in["uuid"]), SeqNo: u(in["seq"]),
-			Snapshot: &models.CheckpointDocumentSnapshot{StartSeqNo: u(in["ss"]), EndSeqNo: u(in["se"])}}}
+		// the metadata backends: the row's vBucket and a few neighbours are saved by ONE Save call (one goroutine per vBucket in
+		// the Couchbase backend), each with its own seqno, and loaded back together
+		vbs := []uint16{vb, vb + 1, vb + 2, vb + 10, vb + 100, (vb + 513) % 1024}
+		mk := func(k int) *models.CheckpointDocument {
+			return &models.CheckpointDocument{BucketUUID: "bkt", Checkpoint: &models.CheckpointDocumentCheckpoint{VbUUID: u(in["uuid"]), SeqNo: u(in["seq"]) - uint64(k),
+				Snapshot: &models.CheckpointDocumentSnapshot{StartSeqNo: u(in["ss"]), EndSeqNo: u(in["se"])}}}
+		}
 		back := func(m metadata.Metadata) []any {
-			if err := m.Save(map[uint16]*models.CheckpointDocument{vb: doc}, map[uint16]bool{vb: true}, "bkt"); err != nil {
+			state, dirty := map[uint16]*models.CheckpointDocument{}, map[uint16]bool{}
+			for k, b := range vbs {
+				state[b], dirty[b] = mk(k), true
+			}
+			if err := m.Save(state, dirty, "bkt"); err != nil {
 				panic(err)
 			}
-			got, _, err := m.Load([]uint16{vb}, "bkt")
+			got, _, err := m.Load(vbs, "bkt")
 			if err != nil {
 				panic(err)
 			}
-			d, ok := got.Load(vb)
-			if !ok || d == nil || d.Checkpoint == nil || d.Checkpoint.Snapshot == nil {
-				return []any{"missing"}
+			for k, b := range vbs {
+				d, ok := got.Load(b)
+				if !ok || d == nil || d.Checkpoint == nil || d.Checkpoint.Snapshot == nil {
+					return []any{"vb " + strconv.Itoa(int(b)) + " missing"}
+				}
+				if want := mk(k).Checkpoint; d.Checkpoint.VbUUID != want.VbUUID || d.Checkpoint.SeqNo != want.SeqNo ||
+					*d.Checkpoint.Snapshot != *want.Snapshot {
+					return []any{fmt.Sprintf("vb %d came back as %+v / %+v", b, *d.Checkpoint, *d.Checkpoint.Snapshot)}
+				}
 			}
-			c := d.Checkpoint
-			return []any{strconv.FormatUint(c.VbUUID, 10), strconv.FormatUint(c.SeqNo, 10), strconv.FormatUint(c.Snapshot.StartSeqNo, 10), strconv.FormatUint(c.Snapshot.EndSeqNo, 10)}
+			c, _ := got.Load(vb)
+			return []any{strconv.FormatUint(c.Checkpoint.VbUUID, 10), strconv.FormatUint(c.Checkpoint.SeqNo, 10),
+				strconv.FormatUint(c.Checkpoint.Snapshot.StartSeqNo, 10), strconv.FormatUint(c.Checkpoint.Snapshot.EndSeqNo, 10)}
 		}
 		cfg := *r.cfg
 		cfg.Dcp.Group.Name = group
@@ -160,12 +219,14 @@ func (r *wireRig) fid(in map[string]any, dir string) map[string]any {
 		if ok {
 			res["key"] = id
 		}
-		// the key the Couchbase backend really wrote
-		found := false
-		r.wire.Store.With(func(d map[string]*simnode.Doc) { _, found = d[toStr(res["wantkey"])] })
-		if !found {
-			res["key"] = "(no document under the expected key)"
-		}
+		// the keys the Couchbase backend really wrote: one document per saved vBucket under <prefix><group>:checkpoint:<vbID>
+		r.wire.Store.With(func(d map[string]*simnode.Doc) {
+			for _, b := range vbs {
+				if _, found := d["_connector:cbgo:"+group+":checkpoint:"+strconv.Itoa(int(b))]; !found {
+					res["key"] = "(no document for vBucket " + strconv.Itoa(int(b)) + " under its key)"
+				}
+			}
+		})
 	})
 	if msg != "" {
 		res["err"] = msg
